@@ -58,6 +58,13 @@ func sxCardQueryFull(q *carddav.AddressBookQuery) string {
 }
 
 func emitCardEnc(o *Out, q *carddav.AddressBookQuery) {
+	// the caller's value is described BEFORE the call and handed to the client twice: a call must not alter it
+	args := sxCardQueryFull(q)
+	emitCardEncOnce(o, q, args)
+	emitCardEncOnce(o, q, args)
+}
+
+func emitCardEncOnce(o *Out, q *carddav.AddressBookQuery, args string) {
 	cc := &captureClient{}
 	res := guard(func() string {
 		c, err := carddav.NewClient(cc, "http://example.com/dav/")
@@ -79,7 +86,7 @@ func emitCardEnc(o *Out, q *carddav.AddressBookQuery) {
 		return sxNode(t)
 	})
 	o.Stat("cardenc." + strings.Fields(res + " x")[0][:1])
-	o.Emit("card.enc", sxCardQueryFull(q), res)
+	o.Emit("card.enc", args, res)
 }
 
 // the RFC 6352 document of a query, from the independent writer
@@ -249,6 +256,25 @@ func sxMultiGet(allprop bool, props, paths []string) string {
 }
 
 func emitCardMg(o *Out, r *RNG, reqPath string, mg *carddav.AddressBookMultiGet) {
+	// the caller's value is described BEFORE the call; the same value is then used for a second call on another path
+	args := sxMultiGet(mg.DataRequest.AllProp, mg.DataRequest.Props, mg.Paths)
+	defer func() {
+		cc2 := &captureClient{}
+		other := reqPath + "other/"
+		res := guard(func() string {
+			c, _ := carddav.NewClient(cc2, "http://example.com/")
+			c.MultiGetAddressBook(context.Background(), other, mg)
+			if cc2.body == nil {
+				return "err"
+			}
+			t, err := treeOfBytes(cc2.body)
+			if err != nil {
+				return "not-well-formed"
+			}
+			return sxNode(t)
+		})
+		o.Emit("card.encmg", hx(other)+" "+args, res)
+	}()
 	cc := &captureClient{}
 	res := guard(func() string {
 		c, _ := carddav.NewClient(cc, "http://example.com/")
@@ -262,7 +288,7 @@ func emitCardMg(o *Out, r *RNG, reqPath string, mg *carddav.AddressBookMultiGet)
 		}
 		return sxNode(t)
 	})
-	o.Emit("card.encmg", hx(reqPath)+" "+sxMultiGet(mg.DataRequest.AllProp, mg.DataRequest.Props, mg.Paths), res)
+	o.Emit("card.encmg", hx(reqPath)+" "+args, res)
 	// wire -> backend with an independently written RFC document (prop first, then hrefs)
 	root := E(nsCard, "addressbook-multiget")
 	ad := E(nsCard, "address-data")
